@@ -354,12 +354,29 @@ func (f *c32S3) CreateBucket(ctx context.Context, p *s3.CreateBucketInput, _ ...
 }
 
 // ---------- broker fake ----------
+// Scriptable per request (the mode set before the request is sent applies to the next produce
+// the broker reads, on whatever connection): error code, reply only after the proxy's deadline
+// ("late:N": the answer is still written afterwards, so it stays in the stream of a connection
+// that is kept), reply with a foreign correlation id ("wrongcorr:N"), connection closed,
+// garbage, response without partition.  Serves any number of requests per connection and logs,
+// per request: connection, position on the connection, the envelope in the record value and
+// the code it answered with — the oracle's acknowledgement clause is evaluated on this log.
+type c32BrokerEntry struct {
+	conn, seq int
+	key, sha  string
+	size      int64
+	answered  bool // the broker sent (or is about to send) a well-formed answer for this request
+	code      int
+	mode      string
+}
 type c32Broker struct {
-	ln       net.Listener
-	mu       sync.Mutex
-	mode     string
-	received [][]byte // record values of the produce requests received
-	reqs     int
+	ln        net.Listener
+	mu        sync.Mutex
+	mode      string
+	log       []c32BrokerEntry
+	conns     int
+	perConn   map[int]int
+	lateDelay time.Duration
 }
 
 func newC32Broker(t *testing.T) *c32Broker {
@@ -367,14 +384,18 @@ func newC32Broker(t *testing.T) *c32Broker {
 	if err != nil {
 		t.Fatalf("listen: %v", err)
 	}
-	b := &c32Broker{ln: ln, mode: "code:0"}
+	b := &c32Broker{ln: ln, mode: "code:0", perConn: map[int]int{}, lateDelay: 700 * time.Millisecond}
 	go func() {
 		for {
 			conn, err := ln.Accept()
 			if err != nil {
 				return
 			}
-			go b.serve(conn)
+			b.mu.Lock()
+			id := b.conns
+			b.conns++
+			b.mu.Unlock()
+			go b.serve(conn, id)
 		}
 	}()
 	return b
@@ -384,68 +405,98 @@ func (b *c32Broker) setMode(m string) {
 	b.mode = m
 	b.mu.Unlock()
 }
-func (b *c32Broker) serve(conn net.Conn) {
+func (b *c32Broker) serve(conn net.Conn, id int) {
 	defer conn.Close()
-	_ = conn.SetDeadline(time.Now().Add(5 * time.Second))
-	frame, err := protocol.ReadFrame(conn)
-	if err != nil {
-		return
-	}
-	b.mu.Lock()
-	mode := b.mode
-	b.reqs++
-	b.mu.Unlock()
-	hdr, req, err := protocol.ParseRequest(frame.Payload)
-	var topic string
-	var part int32
-	var value []byte
-	if err == nil {
-		if pr, ok := req.(*kmsg.ProduceRequest); ok && len(pr.Topics) > 0 && len(pr.Topics[0].Partitions) > 0 {
-			topic, part = pr.Topics[0].Topic, pr.Topics[0].Partitions[0].Partition
-			if bs, err := lfsDecodeRecordBatches(pr.Topics[0].Partitions[0].Records); err == nil && len(bs) == 1 {
-				if recs, _, err := lfsDecodeBatchRecords(&bs[0], nil); err == nil && len(recs) == 1 {
-					value = recs[0].Value
+	for {
+		_ = conn.SetReadDeadline(time.Now().Add(10 * time.Second))
+		frame, err := protocol.ReadFrame(conn)
+		if err != nil {
+			return
+		}
+		hdr, req, err := protocol.ParseRequest(frame.Payload)
+		var topic string
+		var part int32
+		var value []byte
+		if err == nil {
+			if pr, ok := req.(*kmsg.ProduceRequest); ok && len(pr.Topics) > 0 && len(pr.Topics[0].Partitions) > 0 {
+				topic, part = pr.Topics[0].Topic, pr.Topics[0].Partitions[0].Partition
+				if bs, err := lfsDecodeRecordBatches(pr.Topics[0].Partitions[0].Records); err == nil && len(bs) == 1 {
+					if recs, _, err := lfsDecodeBatchRecords(&bs[0], nil); err == nil && len(recs) == 1 {
+						value = recs[0].Value
+					}
 				}
 			}
 		}
-	}
-	b.mu.Lock()
-	b.received = append(b.received, value)
-	b.mu.Unlock()
-	corr := int32(0)
-	if hdr != nil {
-		corr = hdr.CorrelationID
-	}
-	switch {
-	case mode == "transport":
-		return
-	case mode == "garbage":
-		out := make([]byte, 4)
-		binary.BigEndian.PutUint32(out, uint32(corr))
-		out = append(out, 0x00, 0xff, 0xff, 0xff, 0x7f) // tagged fields, then an absurd compact array length
-		_ = protocol.WriteFrame(conn, out)
-	default:
+		ent := c32BrokerEntry{conn: id}
+		if env, err := lfs.DecodeEnvelope(value); err == nil {
+			ent.key, ent.sha, ent.size = env.Key, env.SHA256, env.Size
+		}
+		kind, code := "code", 0
+		b.mu.Lock()
+		ent.mode = b.mode
+		ent.seq = b.perConn[id]
+		b.perConn[id]++
+		switch {
+		case strings.HasPrefix(ent.mode, "code:"):
+			fmt.Sscanf(ent.mode, "code:%d", &code)
+		case strings.HasPrefix(ent.mode, "late:"):
+			kind = "late"
+			fmt.Sscanf(ent.mode, "late:%d", &code)
+		case strings.HasPrefix(ent.mode, "wrongcorr:"):
+			kind = "wrongcorr"
+			fmt.Sscanf(ent.mode, "wrongcorr:%d", &code)
+		default:
+			kind = ent.mode
+		}
+		ent.answered = kind == "code" || kind == "late" || kind == "wrongcorr"
+		ent.code = code
+		b.log = append(b.log, ent)
+		delay := b.lateDelay
+		b.mu.Unlock()
+		corr := int32(0)
+		if hdr != nil {
+			corr = hdr.CorrelationID
+		}
+		switch kind {
+		case "transport":
+			return
+		case "garbage":
+			out := make([]byte, 4)
+			binary.BigEndian.PutUint32(out, uint32(corr))
+			out = append(out, 0x00, 0xff, 0xff, 0xff, 0x7f) // tagged fields, then an absurd compact array length
+			if protocol.WriteFrame(conn, out) != nil {
+				return
+			}
+			continue
+		}
 		resp := kmsg.NewPtrProduceResponse()
 		resp.SetVersion(9)
-		if mode != "nopartition" {
-			var code int16
-			fmt.Sscanf(mode, "code:%d", &code)
+		if kind != "nopartition" {
 			rt := kmsg.NewProduceResponseTopic()
 			rt.Topic = topic
 			rp := kmsg.NewProduceResponseTopicPartition()
 			rp.Partition = part
-			rp.ErrorCode = code
+			rp.ErrorCode = int16(code)
 			if code != 0 {
 				rp.BaseOffset = -1
 			}
 			rt.Partitions = append(rt.Partitions, rp)
 			resp.Topics = append(resp.Topics, rt)
 		}
+		if kind == "wrongcorr" {
+			corr += 7777
+		}
+		if kind == "late" {
+			time.Sleep(delay)
+		}
 		out := make([]byte, 4)
 		binary.BigEndian.PutUint32(out, uint32(corr))
 		out = append(out, 0) // response header v1: empty tagged fields
 		out = resp.AppendTo(out)
-		_ = protocol.WriteFrame(conn, out)
+		_ = conn.SetWriteDeadline(time.Now().Add(2 * time.Second))
+		if protocol.WriteFrame(conn, out) != nil {
+			return
+		}
 	}
 }
 
@@ -517,12 +568,15 @@ func c32Run(t *testing.T, cs c32Case, br *c32Broker, deadAddr string) c32Obs {
 		uploadSessionTTL: time.Hour,
 		uploadSessions:   make(map[string]*uploadSession),
 		backends:         []string{br.ln.Addr().String()},
-		dialTimeout:      3 * time.Second,
+		dialTimeout:      400 * time.Millisecond,
 		backendRetries:   1,
 		backendBackoff:   time.Millisecond,
 	}
 	atomic.StoreUint32(&m.s3Healthy, 1)
 	obs := c32Obs{etagID: map[int32]int64{}}
+	br.mu.Lock()
+	connsBefore := br.conns
+	br.mu.Unlock()
 	setFail := func(key, what string) {
 		if obs.fail == "" {
 			obs.fail, obs.failKey = what, key
@@ -552,7 +606,7 @@ func c32Run(t *testing.T, cs c32Case, br *c32Broker, deadAddr string) c32Obs {
 			}
 		}
 		br.mu.Lock()
-		before := len(br.received)
+		before := len(br.log)
 		br.mu.Unlock()
 		return reply, before
 	}
@@ -679,15 +733,22 @@ func c32Run(t *testing.T, cs c32Case, br *c32Broker, deadAddr string) c32Obs {
 				}
 				// ---- implementation-side oracle: the clauses of C32 ----
 				sum := sha256.Sum256(obj)
+				// "the broker has acknowledged the envelope record without error": the broker's own log
+				// for THIS envelope (matched by the key in the produced record value)
+				_ = before
 				br.mu.Lock()
-				got := br.received[before:]
-				br.mu.Unlock()
-				acked := false
-				for _, v := range got {
-					if e2, err := lfs.DecodeEnvelope(v); err == nil && e2.Key == env.Key && e2.SHA256 == env.SHA256 && e2.Size == env.Size {
-						acked = true
+				acked, produced := false, false
+				answers := ""
+				for _, en := range br.log {
+					if en.key == env.Key && en.sha == env.SHA256 && en.size == env.Size {
+						produced = true
+						if en.answered && en.code == 0 {
+							acked = true
+						}
+						answers += fmt.Sprintf(" [conn %d req %d: %s]", en.conn, en.seq, en.mode)
 					}
 				}
+				br.mu.Unlock()
 				switch {
 				case !present:
 					setFail("object-missing", fmt.Sprintf("event %d (%s): 200 but object %s does not exist", i, ev.Kind, env.Key))
@@ -701,10 +762,10 @@ func c32Run(t *testing.T, cs c32Case, br *c32Broker, deadAddr string) c32Obs {
 						}
 					}
 					setFail(key, fmt.Sprintf("event %d (%s): 200 with envelope size=%d sha256=%s but the stored object has size=%d sha256=%s", i, ev.Kind, env.Size, env.SHA256, len(obj), hex.EncodeToString(sum[:])))
-				case reply != "code:0":
-					setFail("broker-error-ignored", fmt.Sprintf("event %d (%s): 200 although the broker reply was %q", i, ev.Kind, reply))
-				case !acked:
+				case !produced:
 					setFail("not-produced", fmt.Sprintf("event %d (%s): 200 but the broker did not receive the envelope record", i, ev.Kind))
+				case !acked:
+					setFail("broker-error-ignored", fmt.Sprintf("event %d (%s): 200 although the broker never acknowledged this envelope's record without error; its answers for it:%s (scripted reply %q)", i, ev.Kind, answers, reply))
 				}
 			}
 		} else if rr.Code == 200 || rr.Code == 204 {
@@ -792,12 +853,16 @@ func c32Run(t *testing.T, cs c32Case, br *c32Broker, deadAddr string) c32Obs {
 			addStep("run", i, 0, &rA)
 		} else {
 			addStep("arrive", i+1, 0, nil)
+			if ev.ExpireDuring {
+				// A is inside S3 (past its own expiry check, holding session.mu), B waits for the
+				// mutex: moving ExpiresAt now is, for both, "the session expired after A's body"
+				expire()
+			}
 			close(gate.release)
 			<-doneA
 			rA := absorb(i, ev, rrA, replyA, beforeA)
 			addStep("run", i, 0, &rA)
 			if ev.ExpireDuring {
-				expire()
 				addStep("expire", i, 0, nil)
 			}
 			<-doneB
@@ -806,6 +871,14 @@ func c32Run(t *testing.T, cs c32Case, br *c32Broker, deadAddr string) c32Obs {
 		}
 		i++
 	}
+	// ASSUMPTION "one request per connection" (model/Upload.v, broker_status): checked here
+	br.mu.Lock()
+	for id, n := range br.perConn {
+		if id >= connsBefore && n > 1 {
+			setFail("connection-reused", fmt.Sprintf("the proxy sent %d produce requests on one broker connection (connection %d): the model's assumption that the first frame read on a connection answers the request just sent does not hold, and forwardToBackend does not check correlation ids", n, id))
+		}
+	}
+	br.mu.Unlock()
 	// every envelope handed out with 200 must name an object of the S3 fake's FINAL object map
 	// (not what the uploader reported): it exists, and its size and SHA-256 are the envelope's
 	for _, env := range accepted {
@@ -855,6 +928,14 @@ func c32CoqReply(r string) string {
 		return "(RCode 0)"
 	}
 	var c int
+	if strings.HasPrefix(r, "late:") {
+		fmt.Sscanf(r, "late:%d", &c)
+		return fmt.Sprintf("(RLate %s)", cqZ(int64(c)))
+	}
+	if strings.HasPrefix(r, "wrongcorr:") {
+		fmt.Sscanf(r, "wrongcorr:%d", &c)
+		return fmt.Sprintf("(RWrongCorr %s)", cqZ(int64(c)))
+	}
 	fmt.Sscanf(r, "code:%d", &c)
 	return fmt.Sprintf("(RCode %s)", cqZ(int64(c)))
 }
@@ -975,6 +1056,11 @@ func (g *c32Gen) reply() string {
 		return "nobackend"
 	case 4, 5, 6:
 		return fmt.Sprintf("code:%d", []int{1, 3, 6, 7, 10, 19, 87, -1}[g.r.Intn(8)])
+	case 7:
+		if g.r.Chance(35) {
+			return []string{"late:0", "late:0", "late:3"}[g.r.Intn(3)]
+		}
+		return []string{"wrongcorr:0", "wrongcorr:6", "wrongcorr:0"}[g.r.Intn(3)]
 	}
 	return "code:0"
 }
@@ -1183,21 +1269,34 @@ func (g *c32Gen) session() []c32Ev {
 func c32GenCase(r *vRand) c32Case {
 	g := &c32Gen{r: r}
 	var cs c32Case
-	np := []int{0, 0, 1, 1, 2}[r.Intn(5)]
+	np := []int{0, 0, 1, 1, 2, 3, 4}[r.Intn(7)]
 	for i := 0; i < np; i++ {
 		cs.Events = append(cs.Events, g.produce())
 	}
 	if np == 0 || r.Chance(75) {
 		cs.Events = append(cs.Events, g.session()...)
 	}
-	if r.Chance(20) {
+	// several more uploads on the same proxy instance (connection reuse, if any, shows here)
+	nt := []int{0, 0, 1, 1, 2, 3}[r.Intn(6)]
+	for i := 0; i < nt; i++ {
 		cs.Events = append(cs.Events, g.produce())
+	}
+	// after a reply that came too late, the next uploads get an error code / a success
+	for i, ev := range cs.Events {
+		if strings.HasPrefix(ev.Reply, "late:") && r.Chance(70) {
+			tail := append([]c32Ev(nil), cs.Events[i+1:]...)
+			follow := g.produce()
+			follow.Pieces, follow.Faults, follow.Alg, follow.Csum = []c32Chunk{g.chunk(g.small())}, nil, "", c32Csum{}
+			follow.Reply = []string{"code:3", "code:6", "code:0"}[r.Intn(3)]
+			cs.Events = append(append(cs.Events[:i+1:i+1], follow), tail...)
+			break
+		}
 	}
 	return cs
 }
 
 func TestVerifC32(t *testing.T) {
-	rep := vNewReport("C32", "generated event lists against the real LFS HTTP handlers: 0-3 single-request uploads (small / 5 MiB / 5 MiB+tail / empty bodies; checksum header right, wrong, of a prefix, upper case; algorithms sha256/md5/crc32/none/invalid; S3 call faults) and one multipart session (1-3 parts of 5 MiB.. plus a tail; S3 part failures with retry, out-of-order, duplicate, empty, undersized, surplus parts; completion lists exact / subset / reordered / duplicate / wrong ETag / unknown part / empty / last-only; repeated completion; abort; overlapping requests on the session: a part PUT held inside UploadPart or a Complete held inside CompleteMultipartUpload while a second PUT of the same number / Complete / Abort is started; session expiry between and during requests), each upload completion with a broker reply drawn from {error code 0,1,3,6,7,10,19,87,-1, connection closed, unparseable, no partition, no backend}; a case is non-trivial when it contains a 200 completion with envelope and a rejected completion; distinct = distinct canonical JSON")
+	rep := vNewReport("C32", "generated event lists against the real LFS HTTP handlers: 0-3 single-request uploads (small / 5 MiB / 5 MiB+tail / empty bodies; checksum header right, wrong, of a prefix, upper case; algorithms sha256/md5/crc32/none/invalid; S3 call faults) and one multipart session (1-3 parts of 5 MiB.. plus a tail; S3 part failures with retry, out-of-order, duplicate, empty, undersized, surplus parts; completion lists exact / subset / reordered / duplicate / wrong ETag / unknown part / empty / last-only; repeated completion; abort; overlapping requests on the session: a part PUT held inside UploadPart or a Complete held inside CompleteMultipartUpload while a second PUT of the same number / Complete / Abort is started; session expiry between and during requests), each upload completion with a broker reply drawn from {error code 0,1,3,6,7,10,19,87,-1, connection closed, unparseable, no partition, no backend, answer after the proxy deadline (code 0/3), answer with a foreign correlation id (code 0/6)}, several uploads per proxy instance, a late answer followed by rejected/accepted uploads; the broker fake logs per connection and request which envelope it received and what it answered; a case is non-trivial when it contains a 200 completion with envelope and a rejected completion; distinct = distinct canonical JSON")
 	br := newC32Broker(t)
 	defer br.ln.Close()
 	dead, _ := net.Listen("tcp", "127.0.0.1:0")
@@ -1287,6 +1386,19 @@ func TestVerifC32(t *testing.T) {
 			// well-behaved client
 			{Events: []c32Ev{{Kind: "init", Size: 5*c32MiB + 300, Csum: c32Csum{Kind: "blob", Blob: []c32Chunk{p1, p2}}}, {Kind: "part", N: 1, Body: p1}, {Kind: "part", N: 2, Body: p2}, {Kind: "complete", Listed: []c32Listed{{N: 1, Etag: "ok"}, {N: 2, Etag: "ok"}}}}},
 		}
+		// broker answers after the proxy's deadline (the late answer stays in the connection's
+		// stream), then further uploads whose own produce is rejected / accepted; answers with a
+		// foreign correlation id
+		u := func(id int64, reply string) c32Ev {
+			return c32Ev{Kind: "produce", Pieces: []c32Chunk{{ID: id, Len: 100}}, Reply: reply}
+		}
+		corpus = append(corpus,
+			c32Case{Events: []c32Ev{u(31, "late:0"), u(32, "code:3"), u(33, "code:0")}},
+			c32Case{Events: []c32Ev{u(31, "code:0"), u(32, "late:0"), u(33, "late:0"), u(34, "code:6"), u(35, "code:7")}},
+			c32Case{Events: []c32Ev{u(31, "late:0"), {Kind: "init", Size: 100}, {Kind: "part", N: 1, Body: p3}, {Kind: "complete", Listed: []c32Listed{{N: 1, Etag: "ok"}}, Reply: "code:3"}}},
+			c32Case{Events: []c32Ev{{Kind: "init", Size: 100}, {Kind: "part", N: 1, Body: p3}, {Kind: "complete", Listed: []c32Listed{{N: 1, Etag: "ok"}}, Reply: "late:0"}, u(32, "code:10"), u(33, "code:0")}},
+			c32Case{Events: []c32Ev{u(31, "wrongcorr:0"), u(32, "wrongcorr:6"), u(33, "transport"), u(34, "code:0")}},
+		)
 		// every ordered overlap pair of {Part, Complete, Abort} on a session in each of the states
 		// "no part yet", "all parts uploaded", "S3 completed but broker failed" (so the pair also
 		// covers Complete-retry / Abort-retry), followed by operations on the finished session
